@@ -3,7 +3,7 @@
 # usage: coqbuild.sh [make-target...]   (default: all)
 set -e
 # serialise builds of the shared tree (re-exec under the lock once)
-if [ -z "$COQBUILD_LOCKED" ]; then mkdir -p /verif/build; export COQBUILD_LOCKED=1; exec flock /verif/build/coq.lock "$0" "$@"; fi
+if [ -z "$COQBUILD_LOCKED" ]; then mkdir -p /verif/build; export COQBUILD_LOCKED=1; exec flock /verif/build/coqbuild.lock "$0" "$@"; fi
 ulimit -v ${COQ_MEM_KB:-16000000} 2>/dev/null || true   # a runaway proof must not take the machine down
 cd /verif/coq
 mkdir -p Gen
